@@ -33,6 +33,18 @@ def check_text(col, text, cls, case, single_exprs=None):
         col.bump("generate_exceptions")
         return "exception"
     try:
+        # generate() accepted the model: its two residual Functions must be constructible
+        model.dae_residual_function, model.initial_residual_function
+    except Exception as e:
+        if single_exprs is not None and len(single_exprs) > 1:
+            return "exception"  # re-run per equation for a stable case id
+        col.violation(case + ":residual-raises:" + type(e).__name__,
+                      f"generate() accepts the model but building the residual function raises {type(e).__name__}: "
+                      + " ".join(str(e).split())[-160:],
+                      {"model_text": text, "exception": repr(e)[:300]})
+        col.bump("generate_exceptions")
+        return "exception"
+    try:
         flat = pipeline.flat_reference(text, cls)
         fc = flat.classes[cls]
         ref = Ref(flat, cls)
@@ -112,8 +124,21 @@ def main():
     cov["disagreements_checked"] = rep.queries.get("sat", 0)
     cov["functions_encoded"] = ["pymoca.parser._parse (concrete)", "pymoca.tree.flatten (concrete, per text)",
                                 "casadi.generator.generate -> Model.dae_residual_function / initial_residual_function (SX DAG -> z3)"]
+    nsub, nbody = len(families.LOOP_SUBSCRIPTS), len(families.FUN_LOOP_BODIES)
     cov["bounds"] = ("expression depth <= 2 over every ordered pair of C11 operators (thorough: depth 3 on representatives); "
-                     "arrays <= 3 / 2x3, every literal subscript in range; loops <= 3 iterations; all numeric values unbounded reals")
+                     "arrays <= 3 / 2x3 with every literal subscript in range; loops <= 3 iterations (thorough <= 4, with steps); "
+                     f"for-loop subscripts: {nsub} integer expressions of the loop variable (unit offsets, scaled, reversed incl. via a parameter, "
+                     f"non-affine) x loop ranges {families.LOOP_RANGES[args.tier]} x positions {families.LOOP_POSITIONS[args.tier]} "
+                     "(read, written, der(), fixed row/column of a matrix, row slice, two different subscripts of one array, for-statement in a function; "
+                     "arrays tight and with 2 spare elements), plus 4 models with two loop-dependent subscripts; "
+                     f"function for-statements: {nbody} loop bodies of 2-4 mutually dependent assignments (forward/backward/mutual dependencies, swap via a local, "
+                     f"repeated target, loop index in the body, if/for nested in the body, element-wise array update) x ranges {families.FUN_LOOP_RANGES[args.tier]} "
+                     f"x call forms {list(families.FUN_LOOP_CALLS)}; "
+                     "the same function called at several places on different elements / slices / rows of the same arrays, on components of one class, "
+                     "in initial equations, if-branches and next to a loop; all numeric values unbounded reals")
+    cov["struct_models"] = len([i for i in items if i[0] == "struct"])
+    cov["loop_subscript_classes"] = {k: sum(1 for _, c in families.LOOP_SUBSCRIPTS if c == k)
+                                     for k in sorted({c for _, c in families.LOOP_SUBSCRIPTS})}
     cov["explanation"] = "per residual element: z3 unsat of (impl != ref) under non-zero divisors; elementary functions uninterpreted"
     rep.assumptions += ["CasADi Function.expand() is trusted", "real arithmetic, not IEEE",
                         "sin/cos/exp/log/pow are uninterpreted functions shared by both sides",
